@@ -464,3 +464,43 @@ var subs = []pbt.Sub{
 
 func TestGen(t *testing.T)    { pbt.RunAll(t, subs) }
 func TestReplay(t *testing.T) { pbt.Replay(t, subs) }
+
+// TestEnum: bounded exhaustive enumeration of the basic fork scenario: the client first follows log A up to
+// size |P|+x (one or two lookups), then the server presents log B at size |P|+y, for every |P|, x, y up to a
+// bound, every tile height in {1,2,3}, cold and warm caches, with and without a restart in between, and every
+// record of B as the second lookup's target.
+func TestEnum(t *testing.T) {
+	maxP, maxXY := int64(4), int64(4)
+	if pbt.Thorough() {
+		maxP, maxXY = 8, 8
+	}
+	shard, nshards := pbt.Shard()
+	k := 0
+	for p := int64(0); p <= maxP; p++ {
+		for x := int64(1); x <= maxXY; x++ {
+			for y := int64(1); y <= maxXY; y++ {
+				k++
+				if k%nshards != shard {
+					continue
+				}
+				for _, h := range []int{1, 2, 3} {
+					for _, prefill := range []int{0, 2} {
+						for _, restart := range []bool{false, true} {
+							for target := int64(0); target < p+y; target++ {
+								c := c13Case{H: h, P: p, NA: p + x, NB: p + y, Prefill: prefill, PrefillTo: p + x, WriterStep: -1,
+									Steps: []step{{LogB: false, Size: p + x, Mod: (p + x) - 1}, {LogB: true, Size: p + y, Mod: target, Restart: restart}}}
+								res := check(c)
+								pbt.Count("enum-basic-fork", c, res)
+								if res.Fail != nil {
+									pbt.ReportEnum(t, "forks", c, res.Fail)
+									return
+								}
+							}
+						}
+					}
+				}
+			}
+		}
+	}
+	pbt.MarkExhaustive("enum-basic-fork")
+}
